@@ -40,6 +40,7 @@ func genBindCase(t *rapid.T) BindCase {
 	switch c.Side {
 	case "server-udp":
 		c.Role = rapid.SampledFrom([]string{"record", "record", "play"}).Draw(t, "role")
+		c.Wildcard = rapid.IntRange(0, 2).Draw(t, "wildcard") == 0
 		c.Legit = rapid.IntRange(2, 12).Draw(t, "legit")
 		c.Intruders = genIntruders(t)
 		c.Timeout = rapid.IntRange(0, 3).Draw(t, "timeout") == 0
@@ -52,7 +53,8 @@ func genBindCase(t *rapid.T) BindCase {
 		c.Transport = rapid.SampledFrom([]string{"tcp", "tcp", "udp"}).Draw(t, "transport")
 		c.State = rapid.SampledFrom([]string{"setup", "play", "play", "record", "record", "paused"}).Draw(t, "state")
 		n := rapid.IntRange(1, 5).Draw(t, "nattacks")
-		from := rapid.SampledFrom([]string{"otherip", "sameip", "mixed"}).Draw(t, "from")
+		c.Wildcard = rapid.IntRange(0, 2).Draw(t, "wildcard") == 0
+		from := rapid.SampledFrom([]string{"otherip", "otherip", "sameip", "mixed", "otherip-ws", "otherip-http"}).Draw(t, "from")
 		for i := 0; i < n; i++ {
 			a := Attack{Method: rapid.SampledFrom([]string{"TEARDOWN", "TEARDOWN", "PAUSE", "PLAY", "RECORD", "SETUP", "GET_PARAMETER", "SET_PARAMETER", "OPTIONS", "ANNOUNCE"}).Draw(t, "method")} // (DESCRIBE never addresses a session)
 			a.From = from
